@@ -167,6 +167,91 @@ class RetryHarness:
         return ex
 
 
+class BareRetryHarness:
+    """Two requests on ONE connection object used directly (no pool): when the first fails during establishment the second runs
+    the establishment loop again on the same object - attempts, pauses (starting at 0 again) and the raised error are judged per request."""
+    horizon = 400
+
+    def __init__(self, variant, retries, scheme="http"):
+        self.variant = variant
+        self.retries = retries
+        self.scheme = scheme
+
+    def run(self, chooser) -> Execution:
+        server = H1Server(make_echo_responder("cl"), alpn="http/1.1")
+        kinds = {"connect": list(RETRYABLE), "start_tls": list(RETRYABLE), "read": [], "write": []}
+        w = SeqWorld(chooser, lambda kind, host, port: server.new_conn(), variant=self.variant, faults=50, fault_kinds=kinds)
+        w.env.fp = None
+        cls = httpcore.HTTPConnection if self.variant == "sync" else httpcore.AsyncHTTPConnection
+        port = 443 if self.scheme == "https" else 80
+        conn = cls(origin=httpcore.Origin(self.scheme.encode(), b"a.example", port), ssl_context=sim.RecordingSSLContext("origin"),
+                   retries=self.retries, network_backend=w.backend)
+        url = f"{self.scheme}://a.example/t/tok"
+        marks, results = [], []
+        if self.variant == "sync":
+            def prog():
+                for _ in range(2):
+                    marks.append((len(w.net.ledger), len(w.net.sleeps)))
+                    try:
+                        r = conn.request("GET", url)
+                        results.append(("ok", r.status))
+                    except Exception as e:
+                        results.append(("exc", e))
+                conn.close()
+            res = w.run(sync_fn=prog)
+        else:
+            async def aprog():
+                for _ in range(2):
+                    marks.append((len(w.net.ledger), len(w.net.sleeps)))
+                    try:
+                        r = await conn.request("GET", url)
+                        results.append(("ok", r.status))
+                    except Exception as e:
+                        results.append(("exc", e))
+                await conn.aclose()
+            res = w.run(async_fn=aprog)
+        ex = Execution()
+        ledger = w.net.ledger
+        ex.trace = [op.rec() for op in ledger]
+        sig = {"harness": "retry-bare", "scheme": self.scheme, "retries": self.retries}
+
+        def viol(kind, msg):
+            ex.violations.append(Violation("C20." + kind, f"{msg} | bare connection, variant={self.variant} N={self.retries} scheme={self.scheme} "
+                                           f"ops={[(o.kind, o.state) for o in ledger if o.kind != 'close']} sleeps={w.net.sleeps} results={[(r_[0], type(r_[1]).__name__ if r_[0] == 'exc' else r_[1]) for r_ in results]}",
+                                           dict(sig, kind=kind)))
+        if res[0] != "ok":
+            viol(res[0], f"program did not finish: {res}")
+            ex.outcome = res[0]
+            return ex
+        marks.append((len(ledger), len(w.net.sleeps)))
+        descr = []
+        for i in range(2):
+            seg = ledger[marks[i][0]:marks[i + 1][0]]
+            sleeps = w.net.sleeps[marks[i][1]:marks[i + 1][1]]
+            connects = [o for o in seg if o.kind == "connect_tcp"]
+            attempts = len(connects)
+            fails = [o for o in seg if o.kind in ("connect_tcp", "start_tls") and o.state != "ok"]
+            descr.append((attempts, len(fails), results[i][0]))
+            if attempts == 0:
+                continue            # the connection was already established (or is closed): nothing to establish
+            if attempts > self.retries + 1:
+                viol("too-many-attempts", f"request {i + 1}: {attempts} attempts with retries={self.retries}")
+            if sleeps != backoff(attempts - 1):
+                viol("backoff", f"request {i + 1}: pauses {sleeps} for {attempts} attempts, expected {backoff(attempts - 1)} (the schedule starts again for every run of the establishment loop)")
+            if results[i][0] == "exc":
+                want = fails[-1].state.split(":", 1)[1] if fails else None
+                if type(results[i][1]).__name__ != want:
+                    viol("wrong-error", f"request {i + 1} raised {exc_class(results[i][1])}, the last establishment error was {want}")
+                if len(fails) != attempts or attempts != self.retries + 1:
+                    viol("gave-up-early", f"request {i + 1} failed after {attempts} attempts ({len(fails)} failed) with retries={self.retries}")
+        still = [repr(t) for t in w.net.open_transports()]
+        if still:
+            viol("stream-left-open", f"C06: streams open after the connection was closed: {still}")
+        ex.outcome = str(descr)
+        ex.nontrivial = any(d[0] > 1 for d in descr)
+        return ex
+
+
 def specs(tier, variants=("sync", "async")):
     out = []
     for variant in variants:
@@ -176,6 +261,9 @@ def specs(tier, variants=("sync", "async")):
                     out.append(make_spec(MOD, "RetryHarness", variant=variant, retries=n, scheme=scheme, uds=uds))
                     if variant == "async" and n in (0, 2, 3):
                         out.append(make_spec(MOD, "RetryHarness", variant=variant, retries=n, scheme=scheme, uds=uds, via_auto=True))
+        for n in ((1, 2) if tier == "quick" else (1, 2, 3)):
+            for scheme in ("http", "https"):
+                out.append(make_spec(MOD, "BareRetryHarness", variant=variant, retries=n, scheme=scheme))
     return out
 
 
@@ -187,12 +275,21 @@ def check(tier="quick", seed=0, workers=None, only=None):
     sp = common.filt(specs(tier), only)
     st = engine.explore_many(sp, workers=workers, bound=None, merge=False, seed=seed, max_violations=50, max_execs=2000000)
     viols = common.collect(st, ("C20",))
+    from . import conc
+    cst, cinfo = conc.run_for("C20", tier, seed, workers, only)
+    for v in common.collect(cst, ("C14",)):
+        if v["oracle"] == "C14.request-sent-twice":
+            v = dict(v, oracle="C20.resent-after-establishment", message="a request that failed after the connection was established was sent again: " + v["message"])
+            viols.append(v)
+    st.evaluations += cst.evaluations
+    st.states += cst.states
+    st.transitions += cst.transitions
     cov = evidence.stats_coverage(
         st,
         rule=("prefix-closed tree of outcome sequences: every establishment operation answered with success / ConnectError / ConnectTimeout / "
               "ReadTimeout / WriteError / OSError, at the TCP (or Unix-socket) and TLS stages, then the exchange succeeds or fails with ReadError; "
-              "for retries N in 0..3 (quick) / 0..4 (thorough), http and https, TCP and UDS, sync and async, and (async, N in 0,2,3) through the library's default AutoBackend object delegating to the simulated backend; no merging: executions = leaves; "
+              "two requests in a row on one directly used connection object (the establishment loop runs again on the same object); for retries N in 0..3 (quick) / 0..4 (thorough), http and https, TCP and UDS, sync and async, and (async, N in 0,2,3) through the library's default AutoBackend object delegating to the simulated backend; no merging: executions = leaves; "
               "non-trivial = outcome class (attempts, established?, final error) with more than one attempt or a failed establishment"),
-        extra={"scenarios": len(sp)})
+        extra={"scenarios": len(sp), "goaway_resend_scenarios": cinfo})
     return {"level": "fault_enumeration", "coverage": cov, "violations": viols,
             "assumptions": ["reference model: attempts <= N+1, pauses 0,0.5,1,2,..., only ConnectError/ConnectTimeout retried, last error raised, nothing after establishment retried"]}
